@@ -24,7 +24,7 @@ BRANCHES = [
     "destruct.no-inventory", "destruct.inventory-hooks", "destruct.hook-enabled-the-dying-object",
     "destruct.hook-disabled-the-dying-object", "take",
     "clone.blueprint-heart-beat-switched-off", "clone.blueprint-has-no-heart-beat", "timer-fired", "heart_beats()",
-    "error.caught-by-catch", "reload_object", "enable_commands", "eval_cost-used", "timer_flags-set",
+    "replace_program", "replace_programs:program-swapped", "error.caught-by-catch", "reload_object", "enable_commands", "eval_cost-used", "timer_flags-set",
     "chb.call.living:command_giver=ob", "chb.call.not-living:command_giver=0", "chb.call.eval_cost-was-full",
     "chb.call.eval_cost-reset-after-use", "chb.timer_flags-without-HEARTBEAT:empty",
     "chb.timer_flags-without-HEARTBEAT:list-kept",
@@ -251,6 +251,18 @@ class C11(Prop):
                                     "do o0 reload,o3,1", "do o0 hbs", "tick", "tick"])
         mk("reload-clamps", ["do o0 clone,o2,0,1", "do o0 reload,o2,40000", "do o0 reload,o2,-3", "do o0 q,o2",
                              "do o0 reload,o2,4294967297", "do o0 q,o2", "tick"])
+        # --- replace_program: the program is swapped at the top of the backend loop; call_heart_beat re-reads
+        #     ob->prog->heart_beat on every visit, the entry stays on the list and is counted down but never called
+        mk("replace-program-in-own-beat", pop3 + ["script o3 hb:0 rp;hbs", "tick", "tick", "do o0 hbs", "do o0 q,o3", "tick"])
+        mk("replace-program-between-ticks", pop3 + ["tick", "do o2 rp", "do o4 rp", "do o2 rp", "tick", "tick", "do o2 rp",
+                                                    "do o0 rp", "do o0 hbs"])
+        mk("replace-program-then-reenable-and-reload", pop3 + ["do o3 rp", "tick", "do o3 shb,o3,0", "do o3 shb,o3,1",
+                                                               "do o0 reload,o3,1", "tick", "do o0 hbs", "tick"])
+        mk("replace-program-pending-object-destructed", pop3 + ["script o2 hb:0 rp;dest,o2", "script o3 hb:0 rp",
+                                                                "tick", "tick", "do o0 hbs"])
+        mk("replace-program-nohb-kind-and-living", ["do o0 clone,o2,1,1", "do o0 clone,o3,0,1", "do o3 living", "do o2 rp",
+                                                    "do o3 rp", "tick", "do o0 clone,o4,0,1", "tick", "tick"])
+        mk("replace-program-while-timer-flags-off", pop3 + ["tflags 0", "do o2 rp", "tick", "tflags 2", "tick", "tick"])
         # --- every heart_beat starts from a clean context: command_giver only for living objects, fresh eval cost
         mk("context-living-and-not", pop3 + ["do o3 living", "script o2 hb:* burn", "script o3 hb:* burn;living", "tick", "tick"])
         mk("context-after-error-of-living-object", pop3 + ["do o2 living", "script o2 hb:0 burn;err", "tick", "tick",
@@ -277,7 +289,7 @@ class C11(Prop):
         ops = []
         for _ in range(n if n is not None else rng.weighted([(1, 6), (2, 4), (3, 2), (5, 1)])):
             k = rng.weighted([("shb", 12), ("q", 2), ("dest", 4), ("clone", 2), ("err", 2 if allow_err else 0),
-                              ("flag", 1), ("hbs", 2), ("take", 1), ("cerr", 2), ("reload", 3), ("living", 1), ("burn", 1)])
+                              ("flag", 1), ("hbs", 2), ("take", 1), ("cerr", 2), ("reload", 3), ("living", 1), ("burn", 1), ("rp", 1)])
             t = rng.choice(ids["all"])
             if k == "shb":
                 ops.append("shb,o%d,%d" % (t, rng.weighted(INTERVALS)))
